@@ -4,6 +4,9 @@ the origin expression of what is being checked."""
 from .origin import strip, render
 
 PANIC_CALLS = ("unwrap", "expect", "unwrap_err", "expect_err")
+# library calls with a documented panic on a violated precondition
+PRECOND_CALLS = {"gen_bool": "p must be in [0, 1]", "gen_ratio": "denominator > 0 and numerator <= denominator", "gen_range": "range must be non-empty",
+                 "sample_single": "range must be non-empty", "choose_weighted": "weights valid", "from_ratio": "valid ratio"}
 PANIC_FNS = ("panic_fmt", "panic", "begin_panic", "panic_display", "unreachable_display", "panic_explicit",
              "assert_failed", "unwrap_failed", "expect_failed", "panic_nounwind", "panic_const_div_by_zero")
 
@@ -59,6 +62,9 @@ def panic_sites(q):
             if name in PANIC_CALLS:
                 a = strip(q.ev.operand(t.args[0], at), unwrap=False) if t.args else None
                 out.append(PanicSite(q, blk.i, name, a, t.sp))
+            elif name in PRECOND_CALLS and (t.j.get("callee_crate") or "").startswith("rand"):
+                args = [strip(q.ev.operand(a, at)) for a in t.args]
+                out.append(PanicSite(q, blk.i, "precondition:" + name, ("call", t.resolved or name, tuple(args), None, name), t.sp, PRECOND_CALLS[name]))
             elif name in PANIC_FNS:
                 out.append(PanicSite(q, blk.i, "panic", None, t.sp, t.sp.get("exp", "")))
             elif name in ("index", "index_mut") and ("ops::Index" in (t.j.get("trait") or "") or "ops::index::Index" in (t.j.get("trait") or "")):
